@@ -495,7 +495,7 @@ func checkUVIntegral(c uvCase) *vk.Failure {
 }
 
 func TestUVIntegral(t *testing.T) {
-	vk.Run(t, "uv-integral", vk.Opts{Quick: 6000, Thorough: 100000, NoCrumb: true}, func(t *rapid.T) uvCase {
+	vk.Run(t, "uv-integral", vk.Opts{Quick: 12000, Thorough: 150000, NoCrumb: true}, func(t *rapid.T) uvCase {
 		return drawUV(t, nil)
 	}, checkUVIntegral)
 }
